@@ -18,6 +18,7 @@ VERIF = os.path.dirname(os.path.dirname(os.path.abspath(__file__)))
 REPO = os.environ.get('PROPKA_REPO', '/repo')
 
 EXIT_OK, EXIT_VIOLATION, EXIT_HARNESS = 0, 1, 3
+CURRENT_TIER = 'quick'
 
 
 class Obligation:
@@ -263,10 +264,10 @@ def expand_shards(obs, prop, known, jobs):
 # replay
 # ---------------------------------------------------------------------------
 
-def write_replay(prop, ob, viol):
+def write_replay(prop, ob, viol, tier=None):
     d = os.path.join(VERIF, 'replays', prop)
     os.makedirs(d, exist_ok=True)
-    payload = {'property': prop, 'obligation': ob.name.split('#')[0], 'claim': viol['claim'],
+    payload = {'property': prop, 'tier': tier or CURRENT_TIER, 'obligation': ob.name.split('#')[0], 'claim': viol['claim'],
                'inputs': viol['inputs'], 'detail': viol.get('detail')}
     h = hashlib.sha256(json.dumps(payload, sort_keys=True).encode()).hexdigest()[:12]
     path = os.path.join(d, '%s-%s.json' % (ob.name.replace('/', '_'), h))
@@ -301,7 +302,11 @@ def do_replay(path):
     payload = json.load(open(path))
     prop = payload['property']
     mod = importlib.import_module('harness.' + prop.lower())
-    obs = {o.name: o for t in ('quick', 'thorough') for o in mod.obligations(t)}
+    tiers = [payload.get('tier', 'quick')] + [t for t in ('quick', 'thorough') if t != payload.get('tier', 'quick')]
+    obs = {}
+    for t in reversed(tiers):      # the recorded tier wins when both tiers have an obligation of that name
+        for o in mod.obligations(t):
+            obs[o.name] = o
     ob = obs.get(payload['obligation'])
     if ob is None or ob.native is None:
         print('no native replay for', payload['obligation'])
@@ -334,6 +339,8 @@ def main(argv=None):
         sys.exit(do_replay(args.replay))
     prop = args.prop.upper()
     tier = args.tier if args.tier in ('quick', 'thorough') else 'quick'
+    global CURRENT_TIER
+    CURRENT_TIER = tier
     seed = int(os.environ.get('VERIF_SEED', '0') or 0)
     t0 = time.time()
     sys.path.insert(0, VERIF)
@@ -428,6 +435,8 @@ def main(argv=None):
                 harness_errors.append('%s: counterexample for claim %s does not reproduce natively (%s)\n%s' % (ob.name, v['claim'], path, out[-800:]))
         if st['claims'] == 0 and not st['reasons'] and not r['violations'] and not ob.name.endswith('#split'):
             harness_errors.append('%s: vacuous -- no path reached a claim (paths=%d, outcomes=%r)' % (ob.name, st['paths'], r['path_outcomes']))
+        if st['discharged'] == 0 and any('Unsupported' in x for x in st['reasons']) and not r['violations']:
+            harness_errors.append('%s: nothing could be decided -- the engine does not support an operation the code now performs (%s)' % (ob.name, [x for x in st['reasons'] if 'Unsupported' in x][:2]))
         if st['paths'] < ob.min_paths and not ob.name.endswith('#split'):
             harness_errors.append('%s: only %d paths explored, expected >= %d' % (ob.name, st['paths'], ob.min_paths))
         concl = (st['claims'] > 0 and st['discharged'] == st['claims'] and r['exhausted']
